@@ -29,6 +29,10 @@ def variants(base):
             out.append((differ, raw[:i] + raw[i + 1:]))
             out.append((differ, raw[:i] + [(k + 'x', v)] + raw[i + 1:]))
     out.append((differ, raw + [('extra', '1')]))
+    for hk in ('a_hash', 'b_hash'):          # an expected hash is an effective parameter: its presence and its value change the validator
+        if hk not in dict(raw):
+            out.append((differ, raw + [(hk, 'e3b0c44298fc1c149afbf4c8996fb92427ae41e4649b934ca495991b7852b855')]))
+            out.append((differ, raw + [(hk, '')]))
     out.append((differ, raw + [('extra', '')]))
     # swapped URLs, swapped order of parameters
     sw = [(k, (dict(raw)['b'] if k == 'a' else dict(raw)['a'] if k == 'b' else v)) for k, v in raw]
